@@ -188,12 +188,17 @@ Qed.
 
    Full statements aimed at (NOT all proved; what is missing is said at each item and in props/C19.json):
      C19_recover_bytes_refines        recover_bytes = Store/Repair.v recover on the block maps blocks_of derives
-                                      (missing: the lift from one table's scan to the whole fold and through
-                                      commit / open_rw; the equation blocks_of = the blocks of table_wf)
-     C19_recover_keeps_readable       follows from the former + C19_recover_damaged + C01_read_path_refines
+                                      (proved: the fold over the table files, C19_recover_tables_refines_partial at
+                                      the end of this file, under a per-file hypothesis [denotes]; missing: the
+                                      equation blocks_of = the blocks of table_wf that would discharge [denotes],
+                                      sort_fds on the listing order, the journal half through open_rw, the
+                                      abstraction of the returned state)
+     C19_recover_keeps_readable       follows from the former + C19_recover_damaged + C01_read_path_refines (not done)
+     C19_recover_seq_above_all        PROVED in full for the model (third part of this file)
      C19_recover_then_open_idempotent needs C04_open_rw_* applied to the image recover_bytes leaves (not done)
    Proved below: the per-table core of the refinement, the rebuilt table, the bookkeeping of one file, the
-   sequence-number bound. *)
+   sequence-number bound; then (third part) the whole-function sequence-number theorem and the table-loop
+   simulation. *)
 From Coq Require Import List NArith ZArith Bool.
 Import ListNotations.
 From GL Require Import Base.Bytes Base.Cursor Codec.Block Codec.Table Codec.TableCheck Codec.TableProofs Lsm.ReadPath
